@@ -97,6 +97,22 @@ def sc_children(rng, cid, store, deletes=True):
     return dict(id=cid, conf=conf, steps=steps, scenario="children-by-digest", threads=threads)
 
 
+def sc_tag_churn(rng, cid, store):
+    """one tag pushed by one client and deleted by another, over and over, with a logger that formats every record"""
+    conf = mkconf(store=store, withsubj=False, debuglog=True)
+    steps = c12.base_steps(("a",))
+    m = c12.manifest(rng.randrange(1000))
+    pusher = [manifest_put("a", "churn", m, ctype=MT_OCI_M) for _ in range(40)]
+    deleter = [manifest_delete("a", "churn") for _ in range(40)]
+    mover = [manifest_put("a", "churn", c12.manifest(1000 + j), ctype=MT_OCI_M) for j in range(20)]
+    threads = [pusher, deleter, mover]
+    steps.append(dict(kind="par", impl=dict(op="par", par=[[x["impl"] for x in th] for th in threads]), model="(skip)"))
+    steps += [tag_list("a"), special("close")]
+    for st in steps:
+        st["model"] = "(skip)"
+    return dict(id=cid, conf=conf, steps=steps, scenario="tag-churn-debug-log", threads=threads)
+
+
 def run(ctx):
     ok_build, blog = ctx.coq_build()
     ok_props, plog = ctx.coq_props() if ok_build else (False, blog)
@@ -108,9 +124,12 @@ def run(ctx):
         for i in range(18):
             cases.append(c11.gen_case(rng, len(cases) + 1, ("mem", "dir", "memdir")[i % 3]))
         for store in ("mem", "dir"):
-            for f, n in ((c12.sc_waiter, 2), (c12.sc_close_ticker, 1), (c12.sc_uploads, 3), (c12.sc_mixed, 4), (sc_evict_stalled, 6 if store == "dir" else 2), (sc_children, 3)):
+            for f, n in ((c12.sc_waiter, 2), (c12.sc_close_ticker, 1), (c12.sc_uploads, 3), (c12.sc_mixed, 4), (sc_evict_stalled, 6 if store == "dir" else 2), (sc_children, 3), (sc_tag_churn, 2)):
                 for _ in range(n):
                     cases.append(f(rng, len(cases) + 1, store))
+    for j, c in enumerate(cases):
+        if j % 2:
+            c["conf"] = dict(c["conf"], debuglog=True)          # what the log statements read is part of the program
     logp = os.path.join(ctx.work, "race.log")
     for f in glob.glob(logp + ".*"):
         os.remove(f)
